@@ -217,6 +217,29 @@ Qed.
 
 Print Assumptions capacity_reachable.
 Print Assumptions king_present_reachable.
+
+(* ------------------------------------------------------------------ *)
+(** * C10 over the rules: generation restricted to a destination mask *)
+
+Theorem legals_masked_rules : forall b M m, Reachable b ->
+  (In m (mg_drain (legals_masked_gen b M)) <-> In m (legal_moves (Board.abs b)) /\ mem M (m_dst m) = true).
+Proof.
+  intros b M m R. pose proof (legals_masked_drain b M) as Hp. fold (legals b) in Hp.
+  pose proof (proj2 (movegen_exact_reachable b R) m) as Hex. split.
+  - intros H. apply (Permutation_in m Hp) in H. apply filter_In in H. destruct H as [Hl Hm].
+    split; [apply Hex; exact Hl|exact Hm].
+  - intros [Hl Hm]. apply (Permutation_in m (Permutation_sym Hp)). apply filter_In.
+    split; [apply Hex; exact Hl|exact Hm].
+Qed.
+
+Theorem legals_masked_nodup : forall b M, Reachable b -> NoDup (mg_drain (legals_masked_gen b M)).
+Proof.
+  intros b M R. pose proof (legals_masked_drain b M) as Hp. fold (legals b) in Hp.
+  apply (Permutation_NoDup (Permutation_sym Hp)). apply NoDup_filter.
+  exact (proj1 (movegen_exact_reachable b R)).
+Qed.
+
+Print Assumptions legals_masked_rules.
 Print Assumptions reachable_closure.
 Print Assumptions is_legal_rules_reachable.
 Print Assumptions search_move_legal_rules.
